@@ -233,6 +233,31 @@ def run_step(step, heap):
         return tuple(sr.linalg.eigh(x))
     if op == "solve":
         return sr.linalg.solve(x, vals[1])
+    # ---- gauge-invariant observables of decompositions: reconstruction by
+    # the library's own contraction + spectra (factors are not unique)
+    if op == "qr_recon":
+        q, r = sr.linalg.qr(x, stabilized=bool(a.get("stabilized")))
+        return sr.tensordot(q, r, 1)
+    if op == "svd_recon":
+        u, sv, vh = sr.linalg.svd(x)
+        rec = sr.tensordot(u.multiply_diagonal(sv, 1), vh, 1)
+        return rec, _sorted_vec(sv)
+    if op == "svdt_recon":
+        kw = {k: a[k] for k in ("cutoff", "cutoff_mode", "max_bond") if k in a}
+        kw["absorb"] = a.get("absorb")
+        u, sv, vh = sr.linalg.svd_truncated(x, **kw)
+        if sv is not None:
+            rec = sr.tensordot(u.multiply_diagonal(sv, 1), vh, 1)
+        else:
+            rec = sr.tensordot(u, vh, 1)
+            sv = None
+        bond = tuple(sorted(u.indices[1].chargemap.items(), key=repr))
+        return rec, (None if sv is None else _sorted_vec(sv)), np.array(
+            [hash_free_bond(bond)], dtype="float64")
+    if op == "eigh_recon":
+        w, v = sr.linalg.eigh(x)
+        rec = sr.tensordot(v.multiply_diagonal(w, 1), v.dagger(), 1)
+        return rec, _sorted_vec(w)
     # ---- phase api
     if op == "phase_flip":
         return x.phase_flip(*a["axs"], **ip)
@@ -248,6 +273,22 @@ def run_step(step, heap):
     if op == "del":
         return None
     raise HarnessError(f"unknown op {op}")
+
+
+def _sorted_vec(v, use_abs=False):
+    """BlockVector with each block sorted (an order-free spectrum)."""
+    out = {}
+    for c, b in v.blocks.items():
+        b = np.asarray(b)
+        if use_abs:
+            b = np.abs(b)
+        out[c] = np.sort(b)
+    return sr.BlockVector(out)
+
+
+def hash_free_bond(bond):
+    """Total kept bond dimension (a scalar observable of truncation)."""
+    return float(sum(d for _, d in bond))
 
 
 def bind(step, heap, res):
@@ -419,8 +460,18 @@ def g_new(ctx, heap):
     return [{"op": "new", "in": [], "out": [ctx.fresh()], "a": {"spec": ctx.new_spec()}}]
 
 
-def _pick(ctx, heap, kinds="AF", pred=None):
-    ns = [n for n in names_of(heap, kinds) if pred is None or pred(heap[n])]
+def _is_bool(v):
+    try:
+        return np.asarray(v.get_any_array()).dtype.kind == "b"
+    except Exception:  # noqa: BLE001
+        return False
+
+
+def _pick(ctx, heap, kinds="AF", pred=None, allow_bool=False):
+    # boolean masks (results of isfinite) are not tensors one can sign-flip,
+    # contract or decompose: they are only reduced or densified
+    ns = [n for n in names_of(heap, kinds)
+          if (pred is None or pred(heap[n])) and (allow_bool or not _is_bool(heap[n]))]
     if not ns:
         return None
     # bias towards recent values (results of earlier steps)
@@ -732,6 +783,8 @@ def _pair(ctx, heap, kinds="AF", min_axes=0, max_axes=None, want_ndim=None):
     spec, ax_b = _matching_partner_spec(ctx, x, ax_a, extra=extra, lead=rng.random() < 0.5)
     nb = ctx.fresh()
     steps.append({"op": "new", "in": [], "out": [nb], "a": {"spec": spec}})
+    if spec["indices"]:
+        nb = _lazy_signs(ctx, nb, spec["kind"], steps)
     return steps, na, nb, ax_a, ax_b
 
 
@@ -804,10 +857,10 @@ def g_matmul(ctx, heap):
     ax_a = [x.ndim - 1]
     spec, ax_b = _matching_partner_spec(ctx, x, ax_a, extra=rng.choice([0, 1]), lead=True)
     nb = ctx.fresh()
-    return [
-        {"op": "new", "in": [], "out": [nb], "a": {"spec": spec}},
-        {"op": "matmul", "in": [na, nb], "out": [ctx.fresh()], "a": {}},
-    ]
+    steps = [{"op": "new", "in": [], "out": [nb], "a": {"spec": spec}}]
+    nb = _lazy_signs(ctx, nb, spec["kind"], steps)
+    steps.append({"op": "matmul", "in": [na, nb], "out": [ctx.fresh()], "a": {}})
+    return steps
 
 
 def _square_spec(ctx, kind=None, charge_zero=True, sym=None):
@@ -1027,8 +1080,16 @@ def g_item(ctx, heap):
     return [{"op": "item", "in": [n], "out": [ctx.fresh()], "a": {}}]
 
 
+def g_boolreduce(ctx, heap):
+    n = _pick(ctx, heap, "AFV", pred=lambda v: v.num_blocks > 0 and _is_bool(v), allow_bool=True)
+    if n is None:
+        return None
+    return [{"op": ctx.rng.choice(["all", "any"]), "in": [n], "out": [ctx.fresh()],
+             "a": {"style": ctx.style("func")}}]
+
+
 def g_to_dense(ctx, heap):
-    n = _pick(ctx, heap, "AFV", pred=lambda v: v.num_blocks > 0)
+    n = _pick(ctx, heap, "AFV", pred=lambda v: v.num_blocks > 0, allow_bool=True)
     if n is None:
         return None
     return [{"op": "to_dense", "in": [n], "out": [ctx.fresh()], "a": {}}]
@@ -1099,6 +1160,23 @@ def g_svd_truncated(ctx, heap):
     return steps
 
 
+def _lazy_signs(ctx, name, kind, steps, hermitian=False):
+    """Optionally give a (fermionic) value pending signs through a public,
+    value-changing-but-structure-preserving operation; returns the new name."""
+    rng = ctx.rng
+    if kind != "F" or rng.random() < 0.35:
+        return name
+    new = ctx.fresh()
+    r = rng.random()
+    if r < 0.4:
+        steps.append({"op": "phase_global", "in": [name], "out": [new], "a": {}})
+    elif r < 0.8 or hermitian:
+        steps.append({"op": "phase_flip", "in": [name], "out": [new], "a": {"axs": [0]}})
+    else:
+        steps.append({"op": "phase_transpose", "in": [name], "out": [new], "a": {"perm": None}})
+    return new
+
+
 def g_eigh(ctx, heap):
     steps = []
     n = _matrix(ctx, heap, steps, square=True)
@@ -1107,9 +1185,24 @@ def g_eigh(ctx, heap):
     d = ctx.fresh()
     steps.append({"op": "dagger", "in": [n], "out": [d], "a": {}})
     steps.append({"op": "add", "in": [n, d], "out": [m], "a": {}})
+    kind = steps[0]["a"]["spec"]["kind"] if steps[0]["op"] == "new" else "F"
+    m = _lazy_signs(ctx, m, kind, steps, hermitian=True)
     steps.append({"op": "eigh", "in": [m], "out": [ctx.fresh(), ctx.fresh()],
                   "a": {"style": ctx.style("do")}})
     return steps
+
+
+def _recon(gen, newop, nout):
+    def g(ctx, heap):
+        steps = gen(ctx, heap)
+        if not steps:
+            return None
+        last = steps[-1]
+        last["op"] = newop
+        last["a"].pop("style", None)
+        last["out"] = last["out"][:nout] + [ctx.fresh() for _ in range(nout - len(last["out"]))]
+        return steps
+    return g
 
 
 def g_solve(ctx, heap):
@@ -1128,6 +1221,8 @@ def g_solve(ctx, heap):
                       dtype=sa["dtype"], sparsity=0.0)
     nb = ctx.fresh()
     steps.append({"op": "new", "in": [], "out": [nb], "a": {"spec": sb}})
+    na = _lazy_signs(ctx, na, kind, steps)
+    nb = _lazy_signs(ctx, nb, kind, steps)
     steps.append({"op": "solve", "in": [na, nb], "out": [ctx.fresh()], "a": {}})
     return steps
 
@@ -1183,6 +1278,7 @@ GENERATORS = {
     "unary": (g_unary, 3),
     "item": (g_item, 1),
     "to_dense": (g_to_dense, 1),
+    "boolreduce": (g_boolreduce, 1),
     "allclose": (g_allclose, 1),
     "qr": (g_qr, 2),
     "svd": (g_svd, 2),
@@ -1190,6 +1286,10 @@ GENERATORS = {
     "eigh": (g_eigh, 1),
     "solve": (g_solve, 1),
     "phase": (g_phase, 5),
+    "qr_recon": (_recon(g_qr, "qr_recon", 1), 0),
+    "svd_recon": (_recon(g_svd, "svd_recon", 2), 0),
+    "svdt_recon": (_recon(g_svd_truncated, "svdt_recon", 3), 0),
+    "eigh_recon": (_recon(g_eigh, "eigh_recon", 2), 0),
 }
 
 
@@ -1199,9 +1299,11 @@ def swarm_weights(rng, base=None, p_off=0.25, keep=("new", "tensordot", "fuse"))
     for k, (_, wt) in GENERATORS.items():
         if base is not None and k not in base:
             continue
+        if wt == 0 and base is None:
+            continue
         if k not in keep and rng.random() < p_off:
             continue
-        w[k] = wt * rng.choice([0.5, 1, 1, 2])
+        w[k] = (wt or 1) * rng.choice([0.5, 1, 1, 2])
     return w
 
 
